@@ -435,6 +435,8 @@ def main():
             for ci, c in enumerate(cases):
                 for li, cmd in enumerate(c.cmds):
                     evaluations += 1
+                    if "impl_only" in c.tags:
+                        continue        # outside the executable model (e.g. a multi-byte code page): judged by the oracle only
                     ml, il = model_out[pname][ci][li], impl_out[ci][li]
                     if il == "(harness_error)" or ml == "badcmd" or il == "badcmd":
                         broken.append(("harness", "case %s cmd %s -> model %s impl %s" % (c.name, cmd[:200], ml[:100], il[:100])))
